@@ -149,6 +149,7 @@ type statefulSpec struct {
 	returns    string             // "" | "value": the function returns a value besides (or instead of) an error; the translation pairs it with the state
 	ctxOps     map[string]stateOp // sdk.Context method -> operation
 	outParam   string             // a pointer parameter the function assigns through: its final value is returned next to the state
+	panics     bool               // the function returns nothing and panics on failure: the translation returns None for a panic
 	idParams   []string           // string parameters that are identifiers (kept, as integers); every other string parameter is free text
 	addrParams bool               // sdk.AccAddress parameters are kept (as account ids) instead of being matched by name
 }
@@ -224,6 +225,13 @@ var bsetOps = map[string]stateOp{
 	"SetSettledBet":                  {kind: "appendpair", field: []string{"SettledIx"}},
 }
 
+var subhookOps = map[string]stateOp{
+	"GetAccountSummary":    {kind: "find", field: []string{"Summary", "Exists"}, args: []string{"house"}},
+	"SetAccountSummary":    {kind: "set", field: []string{"Summary"}},
+	"GetSubaccountOwner":   {kind: "exists", field: []string{"OwnerFound"}},
+	"bankKeeper.SendCoins": {kind: "move", field: []string{"SubBal", "OwnerBal"}, args: []string{"house", "subAccountOwner"}},
+}
+
 var statefulList = []statefulSpec{{
 	// the market a wager is placed on: found, active, not past its end time (a read-only function: the result is the market or an error)
 	recv: "Keeper", pkg: "x/bet/keeper", name: "getMarket", state: "betmkt", keeperPkg: "x/bet/keeper", ctxTime: "Now", returns: "value",
@@ -264,6 +272,17 @@ var statefulList = []statefulSpec{{
 }, {
 	recv: "Keeper", pkg: "x/bet/keeper", name: "Settle", state: "bset", keeperPkg: "x/bet/keeper", ops: bsetOps, idParams: []string{"bettorAddressStr", "betUID"},
 	ctxOps: map[string]stateOp{"BlockHeight": {kind: "get", field: []string{"Height"}}},
+}, {
+	// x/subaccount/keeper/hooks.go: what the settlement of a participation books on the subaccount that made the deposit.  State: the
+	// account summary stored for the address and whether there is one, whether the owner record exists, the two bank balances
+	recv: "Hooks", pkg: "x/subaccount/keeper", name: "AfterHouseWin", state: "subhook", keeperPkg: "x/subaccount/keeper", ops: subhookOps, panics: true,
+	fields: []stateField{{"Summary", "G_AccountSummary"}, {"Exists", "bool"}, {"OwnerFound", "bool"}, {"SubBal", "Z"}, {"OwnerBal", "Z"}},
+}, {
+	recv: "Hooks", pkg: "x/subaccount/keeper", name: "AfterHouseLoss", state: "subhook", keeperPkg: "x/subaccount/keeper", ops: subhookOps, panics: true,
+}, {
+	recv: "Hooks", pkg: "x/subaccount/keeper", name: "AfterHouseRefund", state: "subhook", keeperPkg: "x/subaccount/keeper", ops: subhookOps, panics: true,
+}, {
+	recv: "Hooks", pkg: "x/subaccount/keeper", name: "AfterHouseFeeRefund", state: "subhook", keeperPkg: "x/subaccount/keeper", ops: subhookOps, panics: true,
 }, {
 	recv: "Keeper", pkg: "x/subaccount/keeper", name: "TopUp", state: "subtop", keeperPkg: "x/subaccount/keeper", ops: subtopOps, ctxTime: "Now",
 	fields: []stateField{{"Exists", "bool"}, {"Summary", "G_AccountSummary"}, {"SummaryExists", "bool"}, {"Locks", "list G_LockedBalance"},
@@ -1311,6 +1330,9 @@ func isNilIdent(e ast.Expr) bool {
 }
 
 func (c *fctx) ret(s *ast.ReturnStmt) string {
+	if c.state != nil && c.state.panics && len(s.Results) == 0 {
+		return "Some " + c.retState()
+	}
 	if c.state != nil && c.results == "err" && len(s.Results) == 1 {
 		// return k.refund(...): the payment is emitted (it cannot fail here, see emitOp) and the function ends
 		if call, ok := s.Results[0].(*ast.CallExpr); ok {
@@ -1966,6 +1988,23 @@ func (c *fctx) stmts(list []ast.Stmt) string {
 					okB := c.withErr(id.Name, true, rest)
 					return fmt.Sprintf("(if negb %s then %s else %s)", callS, errB, okB)
 				}
+				// err = x.M(...) where M assigns to its receiver x (a local variable): the new value of x, or the error continuation
+				if id, ok := s.Lhs[0].(*ast.Ident); ok && fn != nil && c.k.fn[fn] != "" && c.k.mutFn[fn] {
+					if f, ok := call.Fun.(*ast.SelectorExpr); ok {
+						if rid, ok := f.X.(*ast.Ident); ok {
+							if c.nilErr == nil {
+								c.nilErr = map[string]bool{}
+							}
+							if c.nonNil == nil {
+								c.nonNil = map[string]bool{}
+							}
+							callS := c.expr(call)
+							errB := c.withErr(id.Name, false, rest)
+							okB := c.withErr(id.Name, true, rest)
+							return fmt.Sprintf("match %s with\n  | Some %s => %s\n  | None => %s\n  end", callS, ident(rid.Name), okB, errB)
+						}
+					}
+				}
 			}
 		}
 		// err = k.F(...) where F is another stateful kernel returning an error: the new state, or the error continuation
@@ -2439,6 +2478,8 @@ func analyseKernels(w *world) string {
 		c := &fctx{k: k, info: fd.pkg.TypesInfo, pkg: fd.pkg, recvName: "st", mutating: true, results: "none", state: sp, stFields: stateFieldsOf[sp.state]}
 		sig := fn.Type().(*types.Signature)
 		switch {
+		case sig.Results().Len() == 0 && sp.panics:
+			c.results = "err"
 		case sig.Results().Len() == 0:
 		case sig.Results().Len() == 1 && sig.Results().At(0).Type().String() == "error":
 			c.results = "err"
